@@ -117,6 +117,13 @@ Definition fmt_prec (p : nat) (d : dec) : bytes :=
   (if d_neg d then [45] else [])
     ++ whole_chars (whole_digits d)
     ++ (if (p =? 0)%nat then [] else 46 :: chars (take_pad p (frac_digits d))).
+(* the digits are assembled in an ArrayString of capacity 32 (at most 28
+   fractional digits; further zeros are appended outside it): a longer
+   rendering panics (str.rs:64).  Unreachable for the precisions acb uses on
+   96-bit decimals: lemma fmt_fits in Proofs/CsvProps.v. *)
+Definition rep_len (p : nat) (d : dec) : nat :=
+  length (whole_chars (whole_digits d)) + (if (p =? 0)%nat then 0 else S (Nat.min p 28)).
+Definition fmt_panics (p : nat) (d : dec) : bool := (32 <? rep_len p d)%nat.
 (* to_string() *)
 Definition dec_to_string (d : dec) : bytes := fmt_prec (d_scale d) d.
 
